@@ -392,7 +392,9 @@ Theorem per_match_multi_line_event_records :
 Proof. exact per_match_multi_line_event. Qed.
 Print Assumptions per_match_multi_line_event_records.
 
-(* NEW FINDING MultiLinePerMatchDropsEmptyMatchAtLineStart: an empty match at the very start of a line
+(* OBSERVATION OUTSIDE THE PROPERTY (C10's statement does not name --vimgrep; this refutes a natural
+   reading "one --vimgrep record per submatch under -U", not the property; not a known finding)
+   MultiLinePerMatchDropsEmptyMatchAtLineStart: an empty match at the very start of a line
    of a multi-line block gets no --vimgrep record (`line.start() >= m.end()` breaks the loop before the
    first line), although --count-matches / JSON count it and the line-oriented --vimgrep prints it.
    witness: block "ab\n", empty matches at 0, 1, 2: 3 submatches, records only for columns 2 and 3.
